@@ -1409,36 +1409,45 @@ func ruleSortSign(c *Ctx, r *R) {
 		r.undecided("unresolved:sortCompare", "-", "UNRESOLVED: sortCompare")
 		return
 	}
+	// sortCompare and the helpers only it calls (the comparison of two present values may live in one)
+	family := []*ssa.Function{sortCompare}
+	for _, fn := range c.AllSrcFuncs("") {
+		if fn != sortCompare && fn.Parent() == nil && c.partOf(fn, "sortCompare", 0) {
+			family = append(family, fn)
+		}
+	}
 	n := 0
-	for _, b := range sortCompare.Blocks {
-		for _, ins := range b.Instrs {
-			call, ok := ins.(*ssa.Call)
-			if !ok {
-				continue
-			}
-			callee := call.Call.StaticCallee()
-			if callee == nil || callee.Pkg == nil || callee.Pkg.Pkg.Path() != ottoPath || callee.Signature.Results().Len() != 1 {
-				continue
-			}
-			if b, ok := callee.Signature.Results().At(0).Type().Underlying().(*types.Basic); !ok || b.Kind() != types.Int {
-				continue
-			}
-			if callee.Signature.Params().Len() != 1 || !typeIs(callee.Signature.Params().At(0).Type(), ottoPath, "Value") {
-				continue
-			}
-			n++
-			inf := false
-			for _, cb := range callee.Blocks {
-				for _, ci := range cb.Instrs {
-					if c2, ok := ci.(*ssa.Call); ok {
-						if f := c2.Call.StaticCallee(); f != nil && f.Pkg != nil && f.Pkg.Pkg.Path() == "math" && f.Name() == "IsInf" {
-							inf = true
+	for _, fam := range family {
+		for _, b := range fam.Blocks {
+			for _, ins := range b.Instrs {
+				call, ok := ins.(*ssa.Call)
+				if !ok {
+					continue
+				}
+				callee := call.Call.StaticCallee()
+				if callee == nil || callee.Pkg == nil || callee.Pkg.Pkg.Path() != ottoPath || callee.Signature.Results().Len() != 1 {
+					continue
+				}
+				if b, ok := callee.Signature.Results().At(0).Type().Underlying().(*types.Basic); !ok || b.Kind() != types.Int {
+					continue
+				}
+				if callee.Signature.Params().Len() != 1 || !typeIs(callee.Signature.Params().At(0).Type(), ottoPath, "Value") {
+					continue
+				}
+				n++
+				inf := false
+				for _, cb := range callee.Blocks {
+					for _, ci := range cb.Instrs {
+						if c2, ok := ci.(*ssa.Call); ok {
+							if f := c2.Call.StaticCallee(); f != nil && f.Pkg != nil && f.Pkg.Pkg.Path() == "math" && f.Name() == "IsInf" {
+								inf = true
+							}
 						}
 					}
 				}
+				r.check(!inf, "sign:"+callee.Name(), c.Pos(callee.Pos()), "the sign helper treats infinities by their sign",
+					callee.Name()+" consults math.IsInf when it maps the comparator's result to a sign: a comparator returning ±Infinity is treated as `equal`, so `[3,1,2].sort(function(a,b){ return a > b ? Infinity : -Infinity })` is not sorted (ES5 15.4.4.11: only the sign matters)")
 			}
-			r.check(!inf, "sign:"+callee.Name(), c.Pos(callee.Pos()), "the sign helper treats infinities by their sign",
-				callee.Name()+" consults math.IsInf when it maps the comparator's result to a sign: a comparator returning ±Infinity is treated as `equal`, so `[3,1,2].sort(function(a,b){ return a > b ? Infinity : -Infinity })` is not sorted (ES5 15.4.4.11: only the sign matters)")
 		}
 	}
 	if n == 0 {
@@ -1446,30 +1455,21 @@ func ruleSortSign(c *Ctx, r *R) {
 	}
 	// 15.4.4.11 SortCompare steps 5-12: absent elements and undefined values are ordered before the comparison function is
 	// consulted (it never sees undefined). The call of the comparison function (the *object parameter) is dominated by two
-	// [[HasProperty]] tests and by two IsDefined / IsUndefined tests.
+	// [[HasProperty]] tests and by two IsDefined / IsUndefined tests - in its own function, or, for a helper of sortCompare,
+	// also in front of every call of the helper.
 	var cmpCall *ssa.Call
-	var hasProps, defTests []*ssa.Call
-	for _, b := range sortCompare.Blocks {
-		for _, ins := range b.Instrs {
-			call, ok := ins.(*ssa.Call)
-			if !ok {
-				continue
-			}
-			callee := call.Call.StaticCallee()
-			if callee == nil {
-				continue
-			}
-			switch callee.Name() {
-			case "call":
-				if len(call.Call.Args) > 0 {
-					if p, ok := normCell(call.Call.Args[0]).(*ssa.Parameter); ok && p.Parent() == sortCompare {
+	for _, fam := range family {
+		for _, b := range fam.Blocks {
+			for _, ins := range b.Instrs {
+				call, ok := ins.(*ssa.Call)
+				if !ok {
+					continue
+				}
+				if callee := call.Call.StaticCallee(); callee != nil && callee.Name() == "call" && len(call.Call.Args) > 0 {
+					if p, ok := normCell(call.Call.Args[0]).(*ssa.Parameter); ok && p.Parent() == fam && typeStr(p.Type()) == "*object" {
 						cmpCall = call
 					}
 				}
-			case "hasProperty":
-				hasProps = append(hasProps, call)
-			case "IsDefined", "IsUndefined":
-				defTests = append(defTests, call)
 			}
 		}
 	}
@@ -1477,18 +1477,42 @@ func ruleSortSign(c *Ctx, r *R) {
 		r.undecided("unresolved:comparefn-call", c.Pos(sortCompare.Pos()), "UNRESOLVED: sortCompare does not call its comparison function parameter")
 		return
 	}
-	dom := func(list []*ssa.Call) int {
+	var dom func(at ssa.Instruction, names map[string]bool, depth int) int
+	dom = func(at ssa.Instruction, names map[string]bool, depth int) int {
+		fn := at.Parent()
 		k := 0
-		for _, x := range list {
-			if x.Block().Dominates(cmpCall.Block()) {
-				k++
+		for _, b := range fn.Blocks {
+			for _, ins := range b.Instrs {
+				call, ok := ins.(*ssa.Call)
+				if !ok || !b.Dominates(at.Block()) {
+					continue
+				}
+				if callee := call.Call.StaticCallee(); callee != nil && names[callee.Name()] {
+					k++
+				}
+			}
+		}
+		if fn != sortCompare && depth < 3 {
+			sites, ok := c.callSites(fn)
+			if ok {
+				least := -1
+				for _, s := range sites {
+					if d := dom(s, names, depth+1); least < 0 || d < least {
+						least = d
+					}
+				}
+				if least > 0 {
+					k += least
+				}
 			}
 		}
 		return k
 	}
-	r.check(dom(hasProps) >= 2 && dom(defTests) >= 2, "comparefn-after-undefined", c.Pos(instrPos(cmpCall)),
+	nHas := dom(cmpCall, map[string]bool{"hasProperty": true}, 0)
+	nDef := dom(cmpCall, map[string]bool{"IsDefined": true, "IsUndefined": true}, 0)
+	r.check(nHas >= 2 && nDef >= 2, "comparefn-after-undefined", c.Pos(instrPos(cmpCall)),
 		"the comparison function is called only after both elements were tested for presence and for undefined",
-		fmt.Sprintf("sortCompare calls the comparison function before it has tested both elements for presence (%d of 2 tests dominate the call) and for undefined (%d of 2): the function sees `undefined`, and holes / undefined values are ordered by whatever it returns instead of last (`[3,undefined,1].sort(function(x,y){return x-y})`, ES5 15.4.4.11 SortCompare steps 5-12)", dom(hasProps), dom(defTests)))
+		fmt.Sprintf("sortCompare calls the comparison function before it has tested both elements for presence (%d of 2 tests dominate the call) and for undefined (%d of 2): the function sees `undefined`, and holes / undefined values are ordered by whatever it returns instead of last (`[3,undefined,1].sort(function(x,y){return x-y})`, ES5 15.4.4.11 SortCompare steps 5-12)", nHas, nDef))
 }
 
 // parseInputIsRegexpMatch: the text handed to the strconv parser is part[k:] of a parameter `part` that is, at every
